@@ -2631,12 +2631,9 @@ where
                 w.write_signed_counted(effective_bps, *sample)?;
             }
 
-            w.write_count(
-                precision
-                    .checked_sub::<0b1111>(1)
-                    .ok_or(Error::InvalidQlpPrecision)?
-                    .count(),
-            )?;
+            // 4 bits holding precision - 1, from 1 to 15 bits
+            // (a 1-bit precision leaves no valid signed count to subtract into)
+            w.write::<4, u32>(u32::from(*precision) - 1)?;
 
             w.write::<5, i32>(i32::try_from(*shift).unwrap())?;
 
